@@ -315,10 +315,12 @@ func c15Arch(c *Ctx, p *Prog, arch string) map[*ssa.Function][]emitResult {
 				}
 			}
 			if hasRel {
-				okChoice := len(guardAtomPaths[true]) > 0
+				// (the absolute form reaches every address, so emitting it although the guard held is not a defect; what must
+				// hold is that the guard selects the relative form somewhere, never lets it through when false, and covers it)
+				okChoice := false
 				for _, fm := range guardAtomPaths[true] {
-					if fm.Kind != "rel" {
-						okChoice = false
+					if fm.Kind == "rel" {
+						okChoice = true
 					}
 				}
 				for _, fm := range guardAtomPaths[false] {
@@ -340,7 +342,7 @@ func c15Arch(c *Ctx, p *Prog, arch string) map[*ssa.Function][]emitResult {
 						}
 					}
 				}
-				r.Check(okChoice, "C15.A2", name+" relative form chosen only under its guard", p.Pos(f.Pos()), "E9 form ⇔ guard true, absolute form otherwise",
+				r.Check(okChoice, "C15.A2", name+" relative form chosen only under its guard", p.Pos(f.Pos()), "E9 form ⇒ guard true, absolute form when the guard is false",
 					"the short relative form is emitted on a path that the distance guard does not protect")
 				// the guard function and its argument binding
 				var gcall *ssa.Call
@@ -451,7 +453,7 @@ func c15(c *Ctx) {
 		return
 	}
 	r.SetConfig("linux/arm64")
-	r.Floor("C15.A3", 2)
+	r.Floor("C15.A3", 1)
 	res := c15Arch(c, k2, "arm64")
 	// A4 sibling agreement on arm64: same destination register and lane placement (scratch may differ)
 	var scr []string
